@@ -72,9 +72,26 @@ def expr_task(t):
 
 def _expr_task(t):
     """run `<assignments> : PRINT <expr>` in the given configurations; -> [(O, g, result string)]"""
-    text, env, cfgs = t
+    text, env, cfgs = t[:3]
+    inline = len(t) > 3 and t[3]
     from qvm.machine import TerminalDevice
     lines = []
+    if inline:
+        # the same tree with its leaves written as literals: the compile-time evaluator and the peephole pass see constants
+        # (longest names first: q1% must not be replaced inside q10%)
+        for name, (k, v) in sorted(env.items(), key=lambda kv: -len(kv[0])):
+            if k == 't':
+                lit = f'"{v}"'
+            elif k in 'il':
+                if v < 0:
+                    continue            # a negative literal is a unary minus: keep the variable
+                lit = f'{v}{"%" if k == "i" else "&"}'
+            else:
+                if v < 0 or (v == 0 and math.copysign(1, v) < 0):
+                    continue
+                lit = values.qb_float_literal(v, 'SINGLE' if k == 's' else 'DOUBLE')
+            text = text.replace(name, lit)
+            env = {n: c for n, c in env.items() if n != name}
     for name, (k, v) in env.items():
         if k == 't':
             lines.append(f'{name} = "{v}"')
@@ -126,6 +143,8 @@ def _src_task(t):
     rng = random.Random(seed)
     out = []
     sys.setrecursionlimit(max(sys.getrecursionlimit(), 30000))      # deeply parenthesised expressions (C06: bounded nesting)
+    import time as _t
+    _t0 = _t.time()
     for _ in range(n):
         prog = srcgen.gen(rng, depth=rng.choice([2, 3, 3]))
         src = srcgen.to_source(prog)
@@ -137,10 +156,11 @@ def _src_task(t):
             if st[0] != 'ok':
                 runs.append((cfg, f'rejected {st[0]} {st[1]}'))
                 continue
-            r = real.run_bytes(st[2], max_ticks=60000)
+            r = real.run_bytes(st[2], max_ticks=15000)
             if r.outcome[0] == 'timeout':
-                runs.append((cfg, None))
-                continue
+                # a program that does not end within the budget is of no use in any configuration
+                runs = [(c, None) for c in real.CONFIGS]
+                break
             nums = []
             for c in r.trace:
                 if c[0] == 'terminal_print':
@@ -148,6 +168,9 @@ def _src_task(t):
             tail = 'end' if r.outcome[0] == 'end' else ('trap ' + r.outcome[1] if r.outcome[0] == 'trap' else str(r.outcome))
             runs.append((cfg, ' '.join(nums) + ' | ' + tail))
         out.append((srcgen.to_request(prog), src, runs))
+        import time as _t
+        out[-1] = out[-1] + (round(_t.time() - _t0, 2),)
+        _t0 = _t.time()
     return out
 
 
@@ -207,14 +230,14 @@ def run(chk):
     for i in range(ntree):
         toks, text, env = gen_valued_tree(rng, rng.choice([1, 2, 2, 3]), want_str=rng.random() < 0.08)
         cfgs = real.CONFIGS if chk.thorough() else [real.CONFIGS[(i + chk.seed) % 6], real.CONFIGS[(i + 3 + chk.seed) % 6]]
-        tasks.append((text, env, cfgs))
+        tasks.append((text, env, cfgs, i % 3 == 2))          # every third tree with literal leaves
         toks_l.append(toks)
     res = real.pmap(expr_task, tasks)
     refs = [vmops.canon_nan(g) for g in chk.model.ask(['refeval ' + ' '.join(t) for t in toks_l])] if chk.model else []
     nbad = 0
     kinds = {}
     nontrivial = set()
-    for (text, env, cfgs), (src, outs), ref, toks in zip(tasks, res, refs, toks_l):
+    for (text, env, cfgs, _inl), (src, outs), ref, toks in zip(tasks, res, refs, toks_l):
         parts = [p.strip() for p in ref.split('|')]
         refv = parts[0]
         kinds[refv.split()[0]] = kinds.get(refv.split()[0], 0) + 1
@@ -235,6 +258,7 @@ def run(chk):
     chk.stats['expr-value'] = {'cases': sum(len(t[2]) for t in tasks), 'disagree': nbad, 'reference_outcomes': kinds}
     dist['expression_trees'] = ntree
 
+    chk.say('phase 1-2 done at', round(__import__('time').time() - chk.t0, 1))
     # ---- (3) whole programs: identical behaviour in all six configurations; repository expectations (thorough)
     nprog = chk.n(40, 800)
     ptasks = []
@@ -263,16 +287,20 @@ def run(chk):
                 break
     dist['programs'] = nprog
 
+    chk.say('phase 3 done at', round(__import__('time').time() - chk.t0, 1))
     # ---- (4) statement level: structured programs through the reference semantics (Model/Src.lean) and through the real
     # compiler + machine in all six configurations
     stasks = [(rng.randrange(1 << 30), chk.n(12, 40)) for _ in range(chk.n(16, 200))]
     sres = real.pmap(src_task, stasks)
     sreqs, sexp, smeta = [], [], []
     for out in sres:
-        for req, src, runs in out:
+        for req, src, runs, dt in out:
+            if dt > 20:
+                chk.say('slow structured program', dt, 's:', src[:300].replace('\n', ' / '))
             sreqs.append(req)
             sexp.append(runs)
             smeta.append(src)
+    chk.say('phase 4 runs done at', round(__import__('time').time() - chk.t0, 1))
     sgot = chk.model.ask(sreqs) if chk.model and sreqs else []
     nsd = nfuel = 0
     sig_kinds = {}
